@@ -235,11 +235,12 @@ static var Thread_Init_Run(var self) {
   t->args = NULL;
   
   CELLO_VERIF_POINT(CELLO_VP_THREAD_RUN_END, t);
-  del_raw(exc);
   
 #ifndef CELLO_NGC
   del_raw(gc);
 #endif
+  
+  del_raw(exc);
   
   return x;
 }
